@@ -45,7 +45,7 @@ ScalarCompat == /\ MatMul(MatScale(A, s), B) = MatScale(MatMul(A, B), s)
                 /\ MatScale(A, s) = MatMul(A, MatScale(I, s))
 \* a row-major and a column-major value holding the same abstract matrix store
 \* transposed line lists; every abstract operation is layout independent
-LayoutUnobservable == /\ Abs("r", A) = Abs("c", Transp(A))
+LayoutUnobservable == /\ AbsLay("r", A) = AbsLay("c", Transp(A))
                       /\ Transp(Transp(A)) = A
                       /\ UnflatRows(N, FlatRows(A)) = A /\ UnflatCols(N, FlatCols(A)) = A
                       /\ FlatCols(A) = FlatRows(Transp(A))
